@@ -421,8 +421,8 @@ func allWindows() []window {
 }
 
 const snapRule = "polygons on a lattice of 2..16 points per pixel inside synthetic dyadic grids (16..64 px, zero and non-zero origin) and windows of NetherlandsRDNewQuad (ids 3..14), " +
-	"WebMercatorQuad (16..18) and EuropeanETRS89_LAEAQuad (12..14); families: spiky stars, stars with holes, combs with sub-pixel teeth, slivers, pinched necks, border-aligned rectangles " +
-	"(valid ones checked exactly) and arbitrary sequences (zig-zags of period <= 6, random walks, repeated vertices, 1-2 point rings, self-intersections); random flags and id subsets. " +
+	"WebMercatorQuad (16..18) and EuropeanETRS89_LAEAQuad (12..14); families: spiky stars, stars with holes, combs with sub-pixel teeth, slivers, pinched necks, border-aligned rectangles, holes inside holes' islands / hugging the shell / hugging each other / smaller than a pixel on the path of a side, thin paths, far-apart vertices, POLYGON EMPTY " +
+	"(valid ones checked exactly) and arbitrary sequences (zig-zags of period <= 6, random walks, repeated vertices, 1-2 point rings, self-intersections); random flags and id subsets; before some cases a polygon leaving the grid or neighbours sharing an edge are snapped with the same set, ids and flags. " +
 	"Non-trivial = some vertex lies on a pixel border of the deepest requested level, or the result collapses/splits/changes ring or vertex count, or panics; distinct by op text."
 
 // ---------------- C01
